@@ -255,6 +255,19 @@ async fn write_file(fm: &FileManager, file_type: FileType, data: &[u8]) -> Resul
 }
 
 #[cfg(feature = "breard_r_acmed_verif")]
+pub fn verif_path(fm: &FileManager, file_type: &str) -> Result<String, Error> {
+	let file_type = match file_type {
+		"account" => FileType::Account,
+		"pk" => FileType::PrivateKey,
+		"crt" => FileType::Certificate,
+		_ => {
+			return Err("unknown file type".into());
+		}
+	};
+	Ok(get_file_path(fm, file_type)?.display().to_string())
+}
+
+#[cfg(feature = "breard_r_acmed_verif")]
 pub async fn verif_write(fm: &FileManager, file_type: &str, data: &[u8]) -> Result<String, Error> {
 	let file_type = match file_type {
 		"account" => FileType::Account,
